@@ -145,7 +145,8 @@ def run(tier, seed, replay=None):
         cases = vf.load_corpus(PROP)
         nt, nh, nc = (120, 40, 150) if tier == "quick" else (2500, 800, 3000)
         cases += [gen_targeted(r.rng) for _ in range(nt)]
-        cases += ["mode=tick " + tickgen.gen_case(r.rng, perms=0) for _ in range(nh)]       # honest programs: never flagged
+        # honest programs: never flagged; half of them pass the descent chain of descended instances (Stage B1 law)
+        cases += ["mode=tick " + tickgen.gen_case(r.rng, perms=0, extra=("descent=1" if i % 2 else "")) for i in range(nh)]
         cases += [gen_cover(r.rng) for _ in range(nc)]
     try:
         bins = vf.cargo_build(["c14"])
